@@ -191,6 +191,17 @@ func Render(prog *Program, withDriver bool) map[string]string {
 	for _, p := range prog.InjectorImports {
 		r.addPkg(p)
 	}
+	if prog.ReverseDecls {
+		for i, j := 0, len(r.types)-1; i < j; i, j = i+1, j-1 {
+			r.types[i], r.types[j] = r.types[j], r.types[i]
+		}
+		for i, j := 0, len(r.funcs)-1; i < j; i, j = i+1, j-1 {
+			r.funcs[i], r.funcs[j] = r.funcs[j], r.funcs[i]
+		}
+		for i, j := 0, len(r.sets)-1; i < j; i, j = i+1, j-1 {
+			r.sets[i], r.sets[j] = r.sets[j], r.sets[i]
+		}
+	}
 	// import aliases: package name unless it clashes
 	used := map[string]int{}
 	for _, p := range r.pkgs {
